@@ -177,10 +177,11 @@ def check_stats(proc, chain, coin, start=0, end=None, sizes=None, prefix="stats"
     return [(prefix + ":figure", d) for d in model.compare_stats(got, exp)]
 
 
-def check_opreturn(proc, chain, coin, start=0, end=None, prefix="opreturn"):
+def check_opreturn(proc, chain, coin, start=0, end=None, prefix="opreturn", exp=None):
     if proc.rc != 0:
         return [(prefix + ":exit", "opreturn exited %s: %s" % (proc.rc, (proc.err or proc.out)[-400:]))]
-    exp = model.opreturn_expected(chain, coin, start, end)
+    if exp is None:
+        exp = model.opreturn_expected(chain, coin, start, end)
     text = model.canon_opreturn("\n".join(model.strip_log(proc.out)))
     # expected text: each line prefix+payload+"\n" (payloads may contain newlines themselves). Outputs whose printed text
     # is not pinned (ANY) may be absent or carry anything up to the next expected prefix: both alternatives are tried.
